@@ -449,6 +449,14 @@ def oracle_c07(w):
     lost = sorted(fired - disp)
     if lost and qleft == 0:
         out.append(('lost-queued', f'events {lost} were fired, never dispatched, and no queue holds them'))
+    # ... and by nobody twice: an event is dispatched at most as often as it was fired (a Timer fires one object repeatedly)
+    from collections import Counter
+    nf = Counter(int(e[1]) for e in E if e[0] == 'F')
+    nd = Counter(int(e[1]) for e in E if e[0] == 'D')
+    twice = sorted(v for v in nd if nd[v] > nf.get(v, 0))
+    if twice:
+        out.append(('dispatched-twice', f'events {twice[:6]} were dispatched more often than they were fired '
+                                        f'(e.g. event {twice[0]}: fired {nf.get(twice[0], 0)}x, dispatched {nd[twice[0]]}x)'))
     return out
 
 
@@ -670,6 +678,9 @@ def shrink_scenario(ctx, prop, sc, signature, kinds=None):
 
     def fails(c):
         try:
+            import core_gen
+            if not core_gen.in_scope(c):
+                return False
             rec = core_dsl.run_both(ctx, [c])[0]
             if rec['error'] or rec.get('blocked'):
                 return False
